@@ -50,7 +50,7 @@ def bconst(n):
 
 
 def lean_str(s: str) -> str:
-    return '"' + s.replace("\\", "\\\\").replace('"', '\\"') + '"'
+    return '"' + s.replace("\\", "\\\\").replace('"', '\\"').replace("\n", "\\n") + '"'
 
 
 def lean_list(xs, f=str):
@@ -292,6 +292,66 @@ def schemas(out):
     out["Schemas"] = schema_reflect()
 
 
+
+@extractor
+def protocol_tables(out):
+    t = parse("protocol/__init__.py")
+    tl = out["TLV"]
+    f = func(t, "error_handler")
+    table = []
+    default = None
+    for st in f.body:
+        if isinstance(st, ast.If):
+            c = st.test
+            if not (isinstance(c, ast.Compare) and isinstance(c.ops[0], ast.Eq) and getattr(c.left, "id", "") == "error" and not st.orelse):
+                raise Shape("error_handler: unexpected test " + ast.unparse(c))
+            r = st.body[0]
+            if not (isinstance(r, ast.Raise) and len(st.body) == 1):
+                raise Shape("error_handler: branch body")
+            table.append([tl[tlvname(c.comparators[0])], r.exc.func.id])
+        elif isinstance(st, ast.Raise):
+            default = st.exc.func.id
+        elif isinstance(st, ast.Expr):
+            continue
+        else:
+            raise Shape("error_handler: statement " + ast.unparse(st)[:60])
+    if default is None or not table:
+        raise Shape("error_handler table")
+    d = {"errorTable": table, "errorDefault": default}
+    # handle_state_step: the sequence of checks, as source text (any edit shows up as a changed string)
+    h = func(t, "handle_state_step")
+    d["handleStateStepSrc"] = [ast.unparse(x) for x in h.body if not isinstance(x, ast.Expr)]
+    exp = {}
+    labels = {}
+    nonces = {}
+    for fn in ("perform_pair_setup_part1", "perform_pair_setup_part2", "get_session_keys", "resume_m1", "resume_m3"):
+        f = func(t, fn)
+        for n in ast.walk(f):
+            if isinstance(n, ast.Assign) and isinstance(n.targets[0], ast.Name) and n.targets[0].id.endswith("_expectations"):
+                exp[fn + "." + n.targets[0].id] = [tl[tlvname(e)] for e in n.value.elts]
+        labs = []
+        for n in ast.walk(f):
+            if isinstance(n, ast.Call) and getattr(n.func, "id", "") in ("hkdf_derive", "derive"):
+                bs = [bconst(a).decode() for a in n.args if bconst(a) is not None]
+                kw = {k.arg: k.value.value for k in n.keywords if isinstance(k.value, ast.Constant)}
+                labs.append((n.lineno, n.col_offset, bs + ([str(kw["length"])] if "length" in kw else [])))
+        labels[fn] = [x[2] for x in sorted(labs)]
+        nn = []
+        for n in ast.walk(f):
+            if isinstance(n, ast.BinOp) and isinstance(n.op, ast.Add) and getattr(n.left, "id", "") == "NONCE_PADDING" and bconst(n.right) is not None:
+                nn.append((n.lineno, n.col_offset, bconst(n.right).decode()))
+        nonces[fn] = [x[2] for x in sorted(nn)]
+    need = ["perform_pair_setup_part1.step2_expectations", "perform_pair_setup_part2.step4_expectations", "perform_pair_setup_part2.step6_expectations",
+            "get_session_keys.step2_expectations", "get_session_keys.step3_expectations"]
+    for k in need:
+        if k not in exp:
+            raise Shape(k)
+    d["expectations"] = exp
+    d["labels"] = labels
+    d["nonces"] = nonces
+    out["Protocol"] = d
+
+
 # --------------------------------------------------------------------------- emission
 
 def emit(out):
@@ -383,6 +443,25 @@ def emit_schemas(out, files):
     lines.append("]")
     lines.append("end HapVerif.Gen.Schemas")
     files["Schemas.lean"] = "\n".join(lines) + "\n"
+
+
+@emitter
+def emit_protocol(out, files):
+    d = out["Protocol"]
+    L = ["/-! GENERATED by tools/translate.py from protocol/__init__.py - do not edit. -/", "namespace HapVerif.Gen.Protocol"]
+    L.append("def errorTable : List (List UInt8 × String) := " + lean_list(d["errorTable"], lambda r: f"({lean_list(r[0])}, {lean_str(r[1])})"))
+    L.append(f"def errorDefault : String := {lean_str(d['errorDefault'])}")
+    names = {"perform_pair_setup_part1.step2_expectations": "setupM2", "perform_pair_setup_part2.step4_expectations": "setupM4",
+             "perform_pair_setup_part2.step6_expectations": "setupM6", "get_session_keys.step2_expectations": "verifyM2",
+             "get_session_keys.step3_expectations": "verifyM4"}
+    for k, nm in names.items():
+        L.append(f"def expect_{nm} : List Nat := {lean_list(d['expectations'][k])}")
+    for fn, labs in d["labels"].items():
+        L.append(f"def labels_{fn} : List (List String) := " + lean_list(labs, lambda r: lean_list(r, lean_str)))
+    for fn, nn in d["nonces"].items():
+        L.append(f"def nonces_{fn} : List String := " + lean_list(nn, lean_str))
+    L.append("end HapVerif.Gen.Protocol")
+    files["Protocol.lean"] = "\n".join(L) + "\n"
 
 
 def main():
